@@ -24,6 +24,11 @@ func main() {
 			reps, _ = strconv.Atoi(os.Args[3])
 		}
 		mc.Race(os.Args[2], reps)
+	case "debug": // debug <id> <tier> <bound> <substr>...: explore the scenarios whose spec contains every substring
+		b, _ := strconv.Atoi(os.Args[4])
+		mc.Debug(os.Args[2], os.Args[3], b, os.Args[5:])
+	case "count":
+		fmt.Println(len(mc.Defs[os.Args[2]].Gen(os.Args[3])))
 	case "worker":
 		i, _ := strconv.Atoi(os.Args[4])
 		n, _ := strconv.Atoi(os.Args[5])
